@@ -6,6 +6,8 @@ import (
 	"fmt"
 	"os"
 	"os/exec"
+	"runtime"
+	"runtime/debug"
 	"sort"
 	"strings"
 	"sync/atomic"
@@ -139,6 +141,13 @@ func runC12(c *eng.Ctx) {
 	if c.Thorough() {
 		limit = 4000000
 	}
+	// No garbage collection while an execution runs: the allocator can then never hand a freed object's
+	// address to another thread, so "same address" means "same object" in the access log (otherwise
+	// short-lived per-call objects alias by address reuse and make harmless sites hot, which only costs
+	// time but makes the amount of exploration depend on allocator timing). Collection happens between executions.
+	oldGC := debug.SetGCPercent(-1)
+	defer debug.SetGCPercent(oldGC)
+	sinceGC := 0
 	for si, sc := range scs {
 		sc := sc
 		if !c.Mine(si) || !c.Want("s", si) {
@@ -206,6 +215,10 @@ func runC12(c *eng.Ctx) {
 			pending := map[string]bool{}
 			traces := map[string]bool{}
 			execs, capped := vrt.Explore(sc.bound, limit, bodies, func(s *vrt.Sched) {
+				if sinceGC++; sinceGC >= 256 {
+					sinceGC = 0
+					runtime.GC()
+				}
 				c.R.States++
 				c.R.Transitions += int64(s.Ops)
 				c.R.Traces++
